@@ -365,6 +365,20 @@ def run_case(case, seed=0, solver_timeout_ms=60000, cvc5=False, selfcheck_points
     for a in b.extra_assumptions:
         vc.extra.append(a if isinstance(a, str) else a(ctx, vc))
     nclaims = 0
+    shape_bad = [c for c in cl if c[0] == "SHAPE" and tuple(c[2]) != tuple(c[3])]
+    res["static_shape_checks"] = sum(1 for c in cl if c[0] == "SHAPE")
+    cl = [c for c in cl if c[0] != "SHAPE"]
+    if shape_bad:
+        # a malformed batch (components of one object with different leading dimensions): confirm on the real code
+        rng = random.Random(seed + 23)
+        rep = _replay(case, I, random_env(ctx, rng))
+        res["replay"] = rep
+        res["violated"] = [f"shape:{c[1]} {tuple(c[2])} vs {tuple(c[3])}" for c in shape_bad][:6]
+        if rep.get("shape_mismatch"):
+            res.update(status="violation", detail=f"malformed result: {res['violated'][0]} (confirmed on the float64 run)")
+        else:
+            res.update(status="inconclusive", detail=f"shape mismatch in the trace not reproduced eagerly: {res['violated'][0]}")
+        return res
     ineqs = [c for c in cl if c[0] == "GE0"]
     cl = [c for c in cl if c[0] != "GE0"]
     for label, lhs, rhs in cl:
@@ -579,6 +593,12 @@ def _replay(case, I, env):
     worst = (0.0, None, 0.0, 0.0)
     nan = False
     for c in cl:
+        if c[0] == "SHAPE":
+            if tuple(c[2]) != tuple(c[3]):
+                out["shape_mismatch"] = True
+                out["reproduced"] = True
+                worst = (float("inf"), f"shape:{c[1]}", float("nan"), float("nan"))
+            continue
         if c[0] == "GE0":
             _, label, expr, _inst = c
             for k, v in enumerate(np.asarray(expr, dtype=float).reshape(-1)):
@@ -598,5 +618,5 @@ def _replay(case, I, env):
             if er > worst[0]:
                 worst = (er, f"{label}#{k}", float(x), float(y))
     out.update(max_err=worst[0], worst_label=worst[1], lhs=worst[2], rhs=worst[3], nonfinite=nan)
-    out["reproduced"] = worst[0] > 1e-6
+    out["reproduced"] = bool(worst[0] > 1e-6)
     return out
